@@ -514,7 +514,8 @@ func errsDiff(file string, m *ref.Result, r *mon.Result) *diff {
 		}
 		e := m.Errs[i]
 		if e.IsPanic {
-			// position of a recovered panic is not pinned: require well-formedness + same inner
+			// the property does not pin the position reported for a recovered panic (only that it is
+			// the last error, wraps the panic value and carries a well-formed prefix): same inner suffices
 			if r.Errs[i].Inner == e.Inner && strings.HasSuffix(got[i], ": "+e.Inner) {
 				continue
 			}
